@@ -216,16 +216,16 @@ class Planned:
   pass
 
 
-def run_planner(wl, fs=None):
+def run_planner(wl, fs=None, graph=None, conf=None):
   """Runs the real planner over the workload inside a SimFS."""
   m = mods()
   fs = fs or simfs.SimFS(ro_roots=[])
   for mod in wl["modules"]:
     if not fs.has(mod["path"]):
       fs.put(mod["path"], "# %s\n" % mod["name"])
-  graph = make_import_graph(wl)
+  graph = graph or make_import_graph(wl)
   deps_list = graph.deps_list()
-  conf = make_conf(wl)
+  conf = conf or make_conf(wl)
   runner_mod = m["runner"]
   saved = runner_mod.PYTYPE_SINGLE
   runner_mod.PYTYPE_SINGLE = ["pytype-single"]
